@@ -17,6 +17,8 @@ responsive, silent and closed backends.
 import SamVerif.Proofs.Listener
 import SamVerif.Gen.Listener
 import SamVerif.Proofs.UpStop
+import SamVerif.Proofs.ProcStop
+import SamVerif.Gen.Session
 namespace SamVerif.Props.C09
 open SamVerif.Listener
 
@@ -510,6 +512,25 @@ theorem stuck_means_returned (limit : Nat) (pre : List Label) (s : L) (h : run (
     obtain ⟨l, hl, hen⟩ := stop_never_stuck limit pre s h (by rw [hp]; intro h; cases h) (by rw [hp]; intro h; cases h)
     rw [hstuck l hl] at hen; cases hen
 
+/-- **The code the model was written against.** The statements of the modelled functions,
+regenerated from the current source on every run, are the ones the model was written against;
+any edit to one of them makes this obligation fail and starts a search for a failing input. -/
+theorem session_loops_match_model :
+    Gen.Session.serve =
+      ["writeDone := make(chan struct{})",
+      "go func() { s.loopWrite() s.conn.Close() s.doQuit() close(writeDone) }()",
+      "s.loopRead()",
+      "s.conn.Close()",
+      "s.doQuit()",
+      "<-writeDone",
+      "close(s.done)"] ∧
+    Gen.Session.loopRead =
+      ["for { v, err := s.dec.Decode() if err != nil { if err != io.EOF { s.p.logger.Warnf(\"loop read exit: %v\", err) } return } req := newRawRequest(v) s.p.handleRequest(req) select { case s.processingReqs <- req: case <-s.quit: return } }"] ∧
+    Gen.Session.loopWrite =
+      ["var ( req *rawRequest err error )",
+      "for { select { case <-s.quit: return case req = <-s.processingReqs: } select { case <-req.done: case <-s.quit: return } resp := req.Response() if err = s.enc.Encode(resp); err != nil { goto FAIL } if len(s.processingReqs) != 0 { continue } if err = s.enc.Flush(); err != nil { goto FAIL } }",
+      "FAIL: s.p.logger.Warnf(\"loop write exit: %v\", err)"] := by
+  refine ⟨rfl, rfl, rfl⟩
 
 end SamVerif.Props.C09
 
@@ -564,6 +585,52 @@ example : ∃ u, run { fixed := true } [.redirect, .rlLock, .stopQuit, .stopLock
 
 end SamVerif.Props.C09u
 
+namespace SamVerif.Props.C09s
+open SamVerif.ProcStop
+
+
+/-- **Stop of a Redis service returns whatever its clients have in flight** (as repaired, F-09i:
+upstream first): for every queue capacity, every number of requests a client has pipelined to a
+backend that never answers, and every interleaving of the session's reader and writer with Stop —
+from the moment the listener has closed the connection every schedule is finite, and when nothing
+can move any more Stop has returned and both loops of the session are gone. -/
+theorem stop_returns_behind_unanswered_requests (cap n : Nat) (hcap : 0 < cap) (pre : List Label) (p : P)
+    (h : run { upstreamFirst := true, cap := cap, toRead := n } pre = some p) (hc : p.connClosed = true)
+    (ls : List Label) (p' : P) (hr : run p ls = some p') :
+    ls.length ≤ mu p ∧ ((∀ l, step p' l = none) → p'.stopPc = 3 ∧ p'.rd = .exited ∧ p'.wr = .exited) := by
+  have hi := inv_run pre _ p (inv_init cap n hcap) h
+  obtain ⟨hm, hi', hc'⟩ := wind_down ls p p' hi hc hr
+  refine ⟨by omega, ?_⟩
+  intro hstuck
+  have hret : p'.stopPc = 3 := by
+    apply Classical.byContradiction
+    intro hn
+    obtain ⟨l, hen⟩ := progress p' hi' hc' hn
+    rw [hstuck l] at hen; cases hen
+  exact ⟨hret, hi'.ret hret⟩
+
+/-- the requests of F-09i: 34 pipelined requests, a queue of 32 — the writer holds the first, 32 are queued, the reader holds the 34th -/
+def fill : List Label :=
+  [.rDecode, .rEnqueue, .wTake] ++ (List.replicate 32 [Label.rDecode, Label.rEnqueue]).flatten ++ [.rDecode]
+
+/-- F-09i, the behaviour before the repair (listener first): the listener closes the connection,
+the reader waits for room, the writer for a reply, neither reads from the connection — nothing can
+move any more and Stop has not returned (the upstream, whose Stop would answer the requests, comes
+after the listener). -/
+theorem old_stop_order_hangs :
+    ∃ p, run { upstreamFirst := false, cap := 32, toRead := 34 } (fill ++ [.stopListener]) = some p ∧
+      p.stopPc ≠ 3 ∧ ∀ l, step p l = none := by
+  refine ⟨_, rfl, by decide, ?_⟩
+  intro l
+  cases l <;> rfl
+
+/-- the same history on the repaired order winds down -/
+example : ∃ p, run { upstreamFirst := true, cap := 32, toRead := 34 }
+    (fill ++ [.stopUpstream, .stopListener, .wWriteFails, .rQuit, .stopWaited]) = some p ∧ p.stopPc = 3 := ⟨_, rfl, by decide⟩
+
+
+end SamVerif.Props.C09s
+
 #print axioms SamVerif.Props.C09.stop_releases
 #print axioms SamVerif.Props.C09.stop_never_stuck
 #print axioms SamVerif.Props.C09.winding_step_decreases
@@ -579,3 +646,6 @@ end SamVerif.Props.C09u
 #print axioms SamVerif.Props.C09.stuck_means_returned
 #print axioms SamVerif.Props.C09u.upstream_stop_completes
 #print axioms SamVerif.Props.C09u.old_stop_holding_the_lock_deadlocks
+#print axioms SamVerif.Props.C09s.stop_returns_behind_unanswered_requests
+#print axioms SamVerif.Props.C09s.old_stop_order_hangs
+#print axioms SamVerif.Props.C09.session_loops_match_model
